@@ -13,7 +13,7 @@ CLAIM = dict(
           "eval_binary's BROADCASTED_2D arm equals the broadcast spec — under the hypothesis 'no operand has shape (1,1) while the "
           "output has several rows', which is necessary (refuted otherwise: out-of-bounds read); the full reduction equals the "
           "left fold for every associative-commutative f whose identity is the accumulator's start value 0 (refuted for multiply: "
-          "the result is 0); the 2-d vertical reduction core equals the per-column left fold seeded with the identity and the "
+          "the result is 0); the 2-d vertical reduction core accumulates input row i element-wise into output row i/K in order (no law needed) and the "
           "horizontal core equals the per-row fold for associative-commutative f with identity (identity padding included). "
           "Refuted with witnesses: column-major operands, binary operands of different rank or rank != 2 broadcasts "
           "(evaluator refuses, caller gets zeros), `initial` ignored, negative axis other than -1 (out-of-bounds write). "
@@ -30,7 +30,12 @@ RULE = ("index level: every column count 1..4N+1 x rows 1..3 x all 16 (lhs,rhs) 
         "outer, add/multiply reductions over every axis / None / keepdims (ct and run time) with integer-valued data so that "
         "re-association is exact; finding streams: (1,1) operands, column-major, rank mismatch / n-d broadcast, initial, negative "
         "axes, special values. non-trivial = more than N elements or a 2-d+ shape; distinct = distinct case lines")
-THEOREM_STATUS = {"proved": ["C12_unary_eq_map", "C12_binary_same_eq"], "partial": [], "refuted": []}
+THEOREM_STATUS = {"proved": ["C12_unary_eq_map", "C12_binary_same_eq", "C12_binary_2d_covers_once", "C12_binary_2d_eq_on_domain",
+                             "C12_no_UB", "C12_reduce_full_on_domain", "C12_reduce_horizontal_core", "C12_reduce_vertical_core"],
+                  "partial": ["reduction_nd_reshape (n-d -> 2-d; the 2-d cores are proved) and eval_outer: modelled and corresponded on every run, "
+                              "not proved", "lane operations of the six contexts: modelled as N-lane maps of f, not verified"],
+                  "refuted": ["C12_binary_2d_covers_once_refuted", "C12_reduce_full_refuted", "C12_column_major_refuted",
+                              "C12_binary_refused_refuted", "C12_reduce_initial_refuted", "C12_reduce_negative_axis_refuted"]}
 ASSUMPTIONS = ["the lane operation of every context is the N-lane map of the scalar operation (intrinsics / vector extensions / SIMDe "
                "are not verified; compared bit for bit on the explored inputs only)",
                "reductions: 'equal up to re-association' is made precise as equality for associative-commutative f with identity; the "
@@ -263,7 +268,7 @@ def classify(line, impl, spec, model):
     shp = _arrs(line)
     if op == "unary":
         if t[-1] == "S:col" and shp[0][0] > 1 and shp[0][1] > 1 and same_as_model: return "column_major_walked_as_row_major"
-        if t[3] == "S:relu6" and re.search(r"90000[14]", line): return "relu6_lane_op_differs_on_negzero_nan"
+        if t[3] in ("S:relu", "S:relu6") and re.search(r"90000[14]", line): return "relu_lane_op_differs_on_negzero_nan"
         return None
     if op == "binary":
         l, r = shp[0], shp[1]
